@@ -93,6 +93,26 @@ Theorem C01_zero_ratio_removed : forall (erfR : R -> R) opa N ns (Rs : list R),
 Proof. exact value_zero_ratio_removed_le. Qed.
 Print Assumptions C01_zero_ratio_removed.
 
+(* ... for ANY selection that drops only zero-ratio events (each event carries
+   the selection's keep/drop decision; kept zero-ratio events are allowed) *)
+Theorem C01_zero_ratio_selection : forall (erfR : R -> R) opa N ns (l : list (R * bool)),
+  0 < opa -> N <> 0 -> ns / N <= 1 - opa ->
+  (forall p, In p l -> snd p = false -> fst p = 0) ->
+  evaluate_value (RNum erfR) opa N ns (map fst l)
+  = evaluate_value (RNum erfR) opa N ns (map fst (filter snd l)).
+Proof. exact value_zero_ratio_selection. Qed.
+Print Assumptions C01_zero_ratio_selection.
+
+(* ... and the guard is sharp: for 1 - threshold < ns/N < 1 the removal of a
+   zero-ratio event changes (lowers) the value of the code — the optimisation
+   of eq. logLambdaOfXOptimized is exact only inside the guard *)
+Theorem C01_zero_ratio_removal_beyond_guard_refuted :
+  forall (erfR : R -> R) opa N ns (Rs : list R),
+  0 < opa -> 0 < N -> 1 - opa < ns / N -> ns < N ->
+  evaluate_value (RNum erfR) opa N ns Rs < evaluate_value (RNum erfR) opa N ns (0 :: Rs).
+Proof. exact value_zero_ratio_removal_guard_sharp. Qed.
+Print Assumptions C01_zero_ratio_removal_beyond_guard_refuted.
+
 (* 6. compositions.  Signal over background, element of the values array: *)
 Theorem C01_sob_ratio : forall (erfR : R -> R) z s b,
   sob_ratio (RNum erfR) z s b = if Rlt_dec 0 b then s / b else z.
